@@ -60,6 +60,7 @@ type infoCase struct {
 	sites    []string // all special sites present
 	classes  []string
 	desc     []string
+	emitted  int // size of the encoding (set by checkInfo)
 }
 
 func (c *infoCase) String() string {
@@ -313,7 +314,8 @@ func siteKey(c *infoCase, clause string) string {
 	if len(c.overflow) > 0 {
 		return "wrap:" + c.overflow[0]
 	}
-	if len(c.sites) > 0 && extTypeUndetermined(c.info.LookupList) {
+	if c.emitted > 0xFFFF && extTypeUndetermined(c.info.LookupList) {
+		// extension records are only written for tables beyond 64 KiB
 		return keyExtType
 	}
 	if nilListWithContent(c.info) {
@@ -340,6 +342,7 @@ func checkInfo(c *infoCase) (*verdict, *failure) {
 		return v, &failure{key: pn.Key(), msg: fmt.Sprintf("Encode refuses a representable value: %s\n%s", pn, pn.Stack)}
 	}
 	v.size = len(data)
+	c.emitted = len(data)
 	kind := refot.GSUB
 	if c.kind == gtab.TypeGpos {
 		kind = refot.GPOS
@@ -435,7 +438,7 @@ func genInfoCase(t *rapid.T) *infoCase {
 	}
 	r := lookups.GenInfo(env, opt, lookups.InfoOptions{Size: isize, NilLists: nilLists}).Draw(t, "info")
 	c := &infoCase{kind: kind, info: r.Info, overflow: r.Overflow, sites: r.Sites, classes: r.Classes, desc: r.Desc}
-	if len(c.sites) > 0 && len(c.overflow) == 0 && extTypeUndetermined(c.info.LookupList) && stats.IsListed(prop, keyExtType) {
+	if len(c.overflow) == 0 && extTypeUndetermined(c.info.LookupList) && stats.IsListed(prop, keyExtType) {
 		// excluded by construction: add a lookup that tells GSUB from GPOS
 		stats.Excluded(keyExtType)
 		bc := lookups.FindBigClass(map[gtab.Type]string{gtab.TypeGsub: "gsub1_2", gtab.TypeGpos: "gpos1_2"}[kind])
